@@ -7,6 +7,9 @@ hook_shas = [l.split()[0] for l in hooks_commits if l.split(' ',1)[1].startswith
 
 # property id -> (engine, technique, level text, level note, design_ref)
 CHECKS = {
+ 'C18': ('hist', 'explicit-state exploration of histories; per state and protection mode: protect, validate, reload, then the exhaustive set of single-codepoint edits of every resource text, reload and validate',
+         'In every distinct state with annotations reached by the history exploration (depth 3 quick / 4 thorough, plus an exploration from a 45-codepoint resource for the checksum branch of Auto) and for each of the four modes: protect_text succeeds, every annotation that selects text validates before and after a JSON round trip, and for every single-codepoint substitution / insertion / deletion of every resource text the reloaded store reports Some(false) exactly for the annotations whose selected characters changed.',
+         'Bounded depth/alphabet; edits are single-codepoint; edits that push an offset out of range make the store unloadable and are skipped.', 'DESIGN.md section 4 C18'),
  'C11': ('hist', 'explicit-state exploration of histories; every distinct state is saved as CBOR and loaded again; complete internal dump (H1) and public observation compared',
          'Every distinct store state of the history exploration (incl. gaps after removals) is saved with to_file(*.cbor) and loaded with shrink_to_fit off and on; the complete internal dump (all vectors, id maps, every reverse-index entry, position indices), the abstract content, the reverse-lookup self-consistency, index sizes and a battery of queries must be identical; plus a value sweep over all DataValue types incl. NaN/infinity and sub-second datetimes.',
          'Bounded depth and alphabet. protect_text states are covered by C18.', 'DESIGN.md section 4 C11'),
